@@ -4,6 +4,7 @@ import RjModel.Model.Chunks
 import RjModel.Model.Frame
 import RjModel.Model.Key
 import RjModel.Model.Launch
+import RjModel.Model.ParseWire
 import RjModel.Model.ParseSettings
 import RjModel.Generated.Defaults
 open Rj
@@ -71,6 +72,18 @@ def handle (line : String) : String :=
       let t := setupComms b f s2 (ans == "1") (scp == "1")
       s!"launches={t.launches} uploads={if t.uploads then 1 else 0} prompted={if t.prompted then 1 else 0} ok={if t.ok then 1 else 0}"
     | _, _, _ => "bad-op"
+  | "wire" :: "C" :: rest =>
+    match P.run P.wcmd rest with
+    | some c => summarizeBytes (Wire.eCmd c)
+    | none => "bad-op"
+  | "wire" :: "R" :: rest =>
+    match P.run P.wresp rest with
+    | some c => summarizeBytes (Wire.eResp c)
+    | none => "bad-op"
+  | "chan" :: cap :: sizes =>
+    match cap.toNat?, sizes.mapM String.toNat? with
+    | some c, some ms => s!"admitted={admittedCount c ms}"
+    | _, _ => "bad-op"
   | ["rpd", s] =>
     match unx s with
     | some str => renderPathDesc (parsePathDesc str)
